@@ -21,7 +21,9 @@ RULE = ("random RDF 1.1 graphs and datasets (default graph, IRI and blank-node g
         "grouped parser's frames). Oracle: field-by-field equality (never "
         "rdflib ==) of the SETS of triples / quads incl. graph names. A second pass runs with rdflib.NORMALIZE_LITERALS = "
         "False. Non-trivial: dataset with >= 2 graphs or a blank-node graph name, or a stream with >= 1 eviction; distinct by "
-        "hash of (config, statements).")
+        "hash of (config, statements). Every shard first runs a frame-length sweep: one-statement graphs whose literal is sized so that "
+        "the delimited frame is exactly 126..130, 16382..16513 and 2097150..2113537 (sampled) bytes long (every shape of the "
+        "length prefix), written by Graph.serialize and flat_stream_to_file, read by every reader and an independent framing reader.")
 ASSUMPTIONS = [
     "lexical forms are canonical for the datatypes rdflib knows, so rdflib's own literal normalisation cannot change them",
     "one spelling per language tag per input (rdflib compares language tags case-insensitively)",
@@ -35,7 +37,7 @@ MARKERS = {
     "rdflib-bnode-graph-written": ("pyjelly/integrations/rdflib/serialize.py", r"statement\.g_bnode = str\(term\)"),
     "rdflib-plugin-parser": ("pyjelly/integrations/rdflib/parse.py", r"class RDFLibJellyParser"),
 }
-REQUIRED_OBSERVED = ["roundtrips", "reader:graph.parse", "reader:flat", "reader:grouped", "reader:to_graph"]
+REQUIRED_OBSERVED = ["roundtrips", "boundary-frame-length-roundtrips", "reader:graph.parse", "reader:flat", "reader:grouped", "reader:to_graph"]
 MANIFEST = {
     "text": "Set-equality oracle (field-wise through a neutral term model) over generated rdflib Graph/Dataset round trips "
             "through the public rdflib API and the stream functions, all three stream classes, flat and grouped logical "
@@ -237,7 +239,53 @@ def roundtrip(cfg: dict, stmts: list, normalize: bool = True, other: bytes | Non
         rdflib.NORMALIZE_LITERALS = old
 
 
+BOUNDARY_LENGTHS = ([126, 127, 128, 129, 130, 16382, 16383] + list(range(16384, 16514)) +
+                    [2097150, 2097151, 2097152, 2097153, 2097280, 2101000, 2113535, 2113536, 2113537])
+
+
+def boundary_frame_lengths(ctx):
+    """One-statement graphs whose literal is sized so that the delimited frame is exactly L bytes long, L stepping over
+    every place where the frame's length prefix changes shape (1 -> 2 -> 3 -> 4 bytes and the first/last values of
+    each second and third prefix byte): written by Graph.serialize / flat_stream_to_file, read back by every reader."""
+    base = {"integration": "rdflib", "physical": 1, "logical": 1, "frame_size": 250, "preset": (8, 4, 0),
+            "generalized": False, "rdf_star": False, "stream_name": "", "ns": False}
+
+    def frame_len(k):
+        cfg = dict(base, entry="flat_frames", delimited=False)
+        return len(pj.serialize(cfg, [(("iri", "http://e/s"), ("iri", "http://e/p"), ("lit", "x" * k, None, None))]))
+
+    overhead = frame_len(0)
+    mine = [L for j, L in enumerate(BOUNDARY_LENGTHS) if j % ctx.nshards == ctx.shard and (L < 100000 or ctx.shard < 3 or ctx.tier != "quick")]
+    for L in mine:
+        if ctx.out_of_time():
+            break
+        k = max(0, L - overhead - 24)
+        while frame_len(k) < L:
+            k += 1
+        if frame_len(k) != L:
+            continue                          # the literal's own length varint grew: this L is not constructible
+        stmts = [(("iri", "http://e/s"), ("iri", "http://e/p"), ("lit", "x" * k, None, None))]
+        for entry in ("graph_serialize", "flat_to_file"):
+            cfg = dict(base, entry=entry, delimited=True)
+            w, data = roundtrip(cfg, stmts, False)
+            ctx.observe("boundary-frame-length-roundtrips")
+            if w is None and data is not None:
+                try:
+                    frames = wire.dec_stream(data, True)
+                    if len(frames) != 1:
+                        w = {"clause": "data-differs", "summary": f"independent framing reader sees {len(frames)} frames in a one-frame stream"}
+                except Exception as e:  # noqa: BLE001
+                    w = {"clause": "data-differs", "summary": f"independent framing reader: {type(e).__name__}: {e}"}
+            if w is not None:
+                w.pop("bytes", None)
+                w.update({"cfg": cfg, "stmts": T.to_json(stmts), "normalize": False, "frame_length": L,
+                          "summary": f"one-statement graph whose delimited frame is {L} bytes long: {w['summary'][:300]}"})
+                ctx.violation(w)
+            ctx.case(("boundary", L, entry), True, sample={"kind": "boundary-frame-length", "frame_length": L, "entry": entry})
+
+
 def run_shard(ctx):
+    boundary_frame_lengths(ctx)
     i = 0
     while not ctx.out_of_time():
         rng = ctx.rng(i)
